@@ -4,5 +4,6 @@ CONSTANTS
   MaxItems = 3
   MaxTargets = 1
   MaxOdd = 0
+  Stretching = FALSE
 INVARIANT NeverDupWins
 CHECK_DEADLOCK FALSE
